@@ -59,7 +59,7 @@ NSHARDS = 16
 N_WRAP = {'quick': 200000, 'thorough': 10000000}
 N_GEN = {'quick': 6, 'thorough': 170}          # generated FILM/PRES files per shard (1-2 films each)
 N_XML = {'quick': 2, 'thorough': 56}          # XML-format LIS files per shard (each plotted with every matching format)
-N_LAS = {'quick': 2, 'thorough': 32}
+N_LAS = {'quick': 6, 'thorough': 48}
 EPS = sys.float_info.epsilon
 TOL_PT = 0.051
 MARGIN_L, MARGIN_R = 24.0, 792.0
@@ -365,7 +365,30 @@ def svg_started(root):
     return out
 
 
-def check_svg(rec, path, what, cap, model=None, film=None, ref_name=None, absent_by_section=None, nframes=None, witness=None):
+def wrap_signatures(values, absent, scales):
+    """Per frame: the tuple of wrap counts of the value on every scale it is drawn with, or None when the frame is absent or a wrap
+    count is not certain (value next to a scale edge, no position on a logarithmic scale)."""
+    from tdv.gen import plotsrc as PS
+    out = []
+    for i, v in enumerate(values):
+        if i in absent:
+            out.append(None)
+            continue
+        sig = []
+        for l, r, lg in scales:
+            try:
+                e = PS.exact_wrap(v, l, r, lg) if l != r and not (lg and (l <= 0 or r <= 0)) else None
+            except (ValueError, ZeroDivisionError, OverflowError):
+                e = None
+            if e is None or e[1] < Fraction(1, 10 ** 4) or e[1] > 1 - Fraction(1, 10 ** 4):
+                sig = None
+                break
+            sig.append(e[0])
+        out.append(tuple(sig) if sig is not None else None)
+    return out
+
+
+def check_svg(rec, path, what, cap, model=None, film=None, ref_name=None, absent_by_section=None, nframes=None, witness=None, wraps_by_section=None):
     """Parse one SVG and apply the oracles.  Returns number of curve polylines (or None when unparseable)."""
     wit = dict(witness or {})
     wit['plot'] = what
@@ -428,6 +451,17 @@ def check_svg(rec, path, what, cap, model=None, film=None, ref_name=None, absent
     if yref is None:
         return npoly
     # ---- no point for absent values
+    if model is not None and wraps_by_section is None and absent_by_section:
+        wraps_by_section = {}
+        fm_ = model.films[film]
+        for sec, absent in absent_by_section.items():
+            try:
+                cs = [c for c in model.curves if fm_.ident in [f for f in c.films(model)] and c.outp.strip().decode('ascii') == sec]
+                vals_ = model.channels[(sec.encode('ascii') + b'    ')[:4]]
+            except (KeyError, UnicodeError):
+                continue
+            if cs:
+                wraps_by_section[sec] = wrap_signatures(vals_, absent, [(c.ledg, c.redg, c.log) for c in cs])
     for sec, absent in sorted((absent_by_section or {}).items()):
         if not absent:
             continue
@@ -435,9 +469,21 @@ def check_svg(rec, path, what, cap, model=None, film=None, ref_name=None, absent
         rec.mon('svg_no_point_for_absent')
         hit = None
         import bisect
+        sigs = (wraps_by_section or {}).get(sec)
         for i in sorted(absent):
             if i >= len(yref):
                 continue
+            # an absent run between two frames on different wraps is crossed by the wrap lines of that change: their points lie on
+            # the track edges at depths spread over the gap (an absent frame's depth among them when frames are close on paper or
+            # the wrap count is large).  Judged only where no such lines can be: the run touches an end of the log, or both
+            # neighbours certainly have the same wrap count on every scale of the output
+            a = next((j for j in range(i - 1, -1, -1) if j not in absent), None)
+            b = next((j for j in range(i + 1, len(yref)) if j not in absent), None)
+            if a is not None and b is not None:
+                if sigs is None or a >= len(sigs) or b >= len(sigs) or sigs[a] is None or sigs[b] is None or sigs[a] != sigs[b]:
+                    rec.add('absent_frames_inside_a_wrap_change_not_judged')
+                    continue
+            rec.add('absent_frames_judged')
             k = bisect.bisect_left(ys, yref[i] - TOL_PT)
             if k < len(ys) and ys[k] <= yref[i] + TOL_PT:
                 hit = (i, ys[k])
@@ -446,7 +492,9 @@ def check_svg(rec, path, what, cap, model=None, film=None, ref_name=None, absent
             cap['n'] += 1
             rec.violation('svg_no_point_for_absent', 'point-at-absent-frame',
                           '%s: output %s has a curve point at y=%r, the depth of frame %d whose value is absent' % (what, sec, hit[1], hit[0]),
-                          dict(wit, output=sec, frame=hit[0], y=hit[1], absent_frames=sorted(absent)[:40]))
+                          dict(wit, output=sec, frame=hit[0], y=hit[1], absent_frames=sorted(absent)[:40], frames=len(yref),
+                               frame_depths_around=yref[max(0, hit[0] - 3):hit[0] + 4],
+                               points_around=[[x, y] for name, pts, tag in secs if name == sec for (x, y) in pts if abs(y - hit[1]) < 3.0][:40]))
     if model is None:
         return npoly
     # ---- generated FILM/PRES: track limits and point-by-point explanation
@@ -835,18 +883,23 @@ def inside_all(cs, v):
     return bool(cs) and all((not lg) and min(l, r) < v < max(l, r) for l, r, lg in cs)
 
 
-def _plot_for(ctx, rng, uid, classes):
+def _plot_for(ctx, rng, uid, classes, scales=None):
     """A Plot object for an XML format: half of the time the one this shard already used for earlier log passes (LIS and LAS,
     other absent values, other channels), as a caller that keeps one configured Plot per format would."""
     from TotalDepth.util.plot import Plot
     cache = ctx.__dict__.setdefault('plot_objects', {})
+    # "at every scale": a third of the plots override the format's own depth scale, from 1:2 (half a frame spacing is then
+    # centimetres of paper, more than any margin absorbs) to 1:1000; any integer is a legal scale (unknown ones get the default grid)
+    scale = rng.choice(scales or [0, 0, 0, 0, 2, 5, 10, 25, 40, 1000])
+    if scale:
+        classes.append('plot:xml-format-scale-override-%d' % scale)
     if rng.random() < 0.5:
-        if uid in cache:
+        if (uid, scale) in cache:
             classes.append('plot:Plot-object-used-before')
         else:
-            cache[uid] = Plot.PlotReadXML(uid)
-        return cache[uid]
-    return Plot.PlotReadXML(uid)
+            cache[(uid, scale)] = Plot.PlotReadXML(uid, theScale=scale) if scale else Plot.PlotReadXML(uid)
+        return cache[(uid, scale)]
+    return Plot.PlotReadXML(uid, theScale=scale) if scale else Plot.PlotReadXML(uid)
 
 
 def plot_xml_lis(ctx, k, cap, table, conf):
@@ -941,7 +994,8 @@ def plot_xml_lis(ctx, k, cap, table, conf):
         # the reference channel is usable in this format when the value written lies strictly inside all of its (linear) scales here
         use_ref = ref if (ref in matching and inside_all(table[uid].get(ref), refval)) else None
         npoly = check_svg(rec, out, 'LIS with XML format %s' % uid, cap, model=None, ref_name=use_ref,
-                          absent_by_section={nm: absent[nm] for nm in matching} if use_ref else None, nframes=n, witness=wit)
+                          absent_by_section={nm: absent[nm] for nm in matching} if use_ref else None, nframes=n, witness=wit,
+                          wraps_by_section={nm: wrap_signatures(chan[nm], absent[nm], table[uid][nm]) for nm in matching})
         rec.case(('xmlplot', _h(data), uid), bool(npoly), classes=classes)
         if npoly == 0 and use_ref and cap['n'] < 20:
             cap['n'] += 1
@@ -1028,6 +1082,13 @@ def plot_las(ctx, k, cap, table, conf):
         return None, [], {}
     up = rng.random() < 0.4
     shapes = {nm: rng.choice(['constant', 'sine', 'ramp', 'spiky', 'absent-runs']) for nm in names}
+    # every third file: excursions of many track widths on the last / first frame of two curves, metres, plotted at 1:2 .. 1:10 only
+    # (a frame step is then decimetres of paper: whatever is drawn for the excursion has nowhere to hide)
+    end_spike = k % 3 == 2
+    if end_spike:
+        for nm in rng.sample(names, min(len(names), 2)):
+            if nm != ref:
+                shapes[nm] = 'end-spike'
     # Vendor spellings: LASConstants.LGFORMAT_LAS maps a plot format's channel name to the LAS mnemonics that carry the same
     # measurement (GR <- DLGR, CALI <- CAL, ...).  Every other LAS run names each such curve only by a vendor mnemonic.
     file_name = {nm: nm for nm in names}
@@ -1039,7 +1100,12 @@ def plot_las(ctx, k, cap, table, conf):
     aliased = sorted(nm for nm in names if file_name[nm] != nm)
     fnames = [file_name[nm] for nm in names]
     las_null = rng.choice([-999.25, -999.25, -9999.0, -999.0, -32768.0])
-    text, m = PS.las_plot_text(rng, fnames, nframes=rng.choice([20, 40, 80]), up=up, shapes={file_name[nm]: shapes[nm] for nm in names}, null=las_null)
+    # depth in feet or metres, sampled every 0.1524 .. 2 units (the paper length of one step decides how far a wrap line can stray)
+    las_units, las_step = rng.choice([('FT', 0.5), ('FT', 0.5), ('M', 0.5), ('M', 0.1524), ('M', 1.0), ('FT', 2.0), ('M', 0.25)])
+    if end_spike:
+        las_units, las_step = 'M', rng.choice([0.5, 1.0])
+    text, m = PS.las_plot_text(rng, fnames, nframes=rng.choice([20, 40, 80]), up=up, shapes={file_name[nm]: shapes[nm] for nm in names}, null=las_null,
+                               units=las_units, step=las_step)
     if aliased:
         for attr in ('channels', 'shapes', 'absent'):
             d = getattr(m, attr)
@@ -1087,12 +1153,14 @@ def plot_las(ctx, k, cap, table, conf):
         out = _tmp(ctx, 'las%d_%s.svg' % (k, re.sub(r'\W', '_', uid)))
         wit = dict(probe, source='generated LAS', input='LAS', format=uid, curves=names, matching=matching, las=text[:1500],
                    vendor_mnemonics={nm: file_name[nm] for nm in aliased})
-        classes = ['plot:las-xml-format', 'format:' + uid, 'plot:absent-value-%r' % las_null]
+        classes = ['plot:las-xml-format', 'format:' + uid, 'plot:absent-value-%r' % las_null, 'plot:las-depth-%s-step-%g' % (las_units, las_step)]
         wit['absent_value'] = las_null
         if any(nm in aliased for nm in matching):
             classes.append('las:vendor-mnemonics-only' if all(nm in aliased for nm in matching) else 'las:vendor-mnemonics-some')
         try:
-            pl = _plot_for(ctx, rng, uid, classes)
+            pl = _plot_for(ctx, rng, uid, classes, scales=[2, 2, 5, 5, 10] if end_spike else None)
+            if end_spike:
+                classes.append('las:excursion-on-the-last-or-first-frame')
             wit['plot_object_used_before'] = 'plot:Plot-object-used-before' in classes
             has = pl.hasDataToPlotLAS(las, uid)
             wit['hasDataToPlotLAS'] = bool(has)
@@ -1113,7 +1181,8 @@ def plot_las(ctx, k, cap, table, conf):
             continue
         use_ref = ref if (ref in matching and inside_all(table[uid].get(ref), refval)) else None
         npoly = check_svg(rec, out, 'LAS with XML format %s' % uid, cap, ref_name=use_ref,
-                          absent_by_section={nm: m.absent[nm] for nm in matching} if use_ref else None, nframes=len(m.x), witness=wit)
+                          absent_by_section={nm: m.absent[nm] for nm in matching} if use_ref else None, nframes=len(m.x), witness=wit,
+                          wraps_by_section={nm: wrap_signatures(m.channels[nm], m.absent[nm], table[uid][nm]) for nm in matching})
         rec.case(('lasplot', _h(text.encode()), uid), bool(npoly), classes=classes)
         if npoly == 0 and use_ref and cap['las'] < 12:
             cap['las'] += 1
